@@ -6,6 +6,7 @@ systematically up to a preemption bound and sampled at random beyond; the schedu
 the direct oracle for "blocked forever"; thread deaths and results are events validated against
 spec/LlcpLife.tla by TLC (Trace_LlcpLife).
 """
+import collections, traceback
 import os, sys, json, errno, random, itertools, threading, traceback
 import multiprocessing as mp
 from vlib import tlc, check
@@ -257,6 +258,20 @@ def P_dlc_server2(ctx, t):
     call(ctx, t, "recv", "dlc2cc", c2.recv, sock=c2)
 
 
+def P_dlc_server_drop(ctx, t):
+    # a server that stops listening while the connection it accepted is still in use (one-shot services do that): the
+    # listening socket leaves an access point that keeps another socket, which the link loop walks in every cycle
+    # (sendack / dequeue / enqueue); the reader blocked on the accepted connection must come back when the link ends
+    s = nfc.llcp.Socket(ctx.llc, nfc.llcp.DATA_LINK_CONNECTION)
+    call(ctx, t, "bind", "dlc2", lambda: s.bind(b"urn:nfc:sn:dut"), sock=s)
+    call(ctx, t, "listen", "dlc2", lambda: s.listen(1), sock=s)
+    c = call(ctx, t, "accept", "dlc2", s.accept, sock=s)
+    know(ctx, c, "dlc2c")
+    call(ctx, t, "close", "dlc2", s.close, sock=s)
+    call(ctx, t, "recv", "dlc2c", c.recv, sock=c)
+    call(ctx, t, "recv", "dlc2c", c.recv, sock=c)
+
+
 def P_wks_clash(ctx, t):
     # a raw access point bound by number to a well-known address, then a bind by the well-known NAME of that address
     # (must be refused: EADDRINUSE); the first socket keeps being served: a reader blocked on it comes back at link end
@@ -285,7 +300,7 @@ def _rejected_client(sid):
 
 P_dlc_frmr_peer, P_dlc_frmr_local, P_dlc_frmr_ui = _rejected_client("dlc7"), _rejected_client("dlc8"), _rejected_client("dlc9")
 
-PROGRAMS = dict(resolve_a=P_resolve_a, resolve_b=P_resolve_b, resolve_c=P_resolve_c, wks_clash=P_wks_clash, dlc_server2=P_dlc_server2, dlc_frmr_peer=P_dlc_frmr_peer, dlc_frmr_local=P_dlc_frmr_local, dlc_frmr_ui=P_dlc_frmr_ui,
+PROGRAMS = dict(dlc_server_drop=P_dlc_server_drop, resolve_a=P_resolve_a, resolve_b=P_resolve_b, resolve_c=P_resolve_c, wks_clash=P_wks_clash, dlc_server2=P_dlc_server2, dlc_frmr_peer=P_dlc_frmr_peer, dlc_frmr_local=P_dlc_frmr_local, dlc_frmr_ui=P_dlc_frmr_ui,
                 ldl_recv=P_ldl_recv, ldl_poll=P_ldl_poll, dlc_client=P_dlc_client, dlc_client_name=P_dlc_client_name,
                 dlc_server=P_dlc_server, resolve=P_resolve, poll_send=P_poll_send,
                 dlc_poll_recv=P_dlc_poll_recv, dlc_poll_acks=P_dlc_poll_acks, dlc_poll_send=P_dlc_poll_send,
@@ -296,6 +311,9 @@ PROGRAMS = dict(resolve_a=P_resolve_a, resolve_b=P_resolve_b, resolve_c=P_resolv
 
 def peer_for(progs, cut):
     script = {}
+    if "dlc_server_drop" in progs:
+        script[3] = [pdu.Connect(16, 40, 128, 1)]
+        script[7] = [pdu.Information(16, 40, 0, 0, b"ping")]
     if "dlc_server" in progs:
         # the peer connects to the DUT's named service (address 16: first free in the named range)
         script[3] = [pdu.Connect(16, 40, 128, 1)]
@@ -432,6 +450,42 @@ def run_scenario(progs, cause, cut, chooser, max_steps=6000):
                 return r
         llc_mod.ServiceAccessPoint.insert_socket = insert_socket
 
+        # registry discipline: LlcpLife's Adopt / Close / Shutdown actions are single steps because the code changes an
+        # access point's socket list only while it holds the controller lock (the link loop walks those lists under the
+        # same lock in every cycle: enqueue, dequeue, sendack).  Every mutation of a socket list by a thread that does not
+        # own the controller lock is recorded - it is a step the specification has no action for.
+        orig_sap_init = llc_mod.ServiceAccessPoint.__init__
+        saved[(llc_mod.ServiceAccessPoint, "__init__")] = orig_sap_init
+        ctx.unlocked = []
+
+        class GuardedList(collections.deque):
+            sap = None
+
+            def _chk(self, op):
+                lk = self.sap.llc.lock
+                owned = lk._is_owned() if hasattr(lk, "_is_owned") else True
+                if not owned and sch.in_logical():
+                    ctx.unlocked.append((op, lname(), " < ".join(
+                        "%s:%s" % (f.name, f.lineno) for f in reversed(traceback.extract_stack()[-5:-2]))))
+
+        def _guard(name):
+            base_m = getattr(collections.deque, name)
+
+            def m(self, *a, **k):
+                self._chk(name)
+                return base_m(self, *a, **k)
+            return m
+        for _n in ("append", "appendleft", "remove", "pop", "popleft", "clear", "extend", "extendleft", "insert", "rotate",
+                   "reverse", "__delitem__", "__setitem__", "__iadd__"):
+            setattr(GuardedList, _n, _guard(_n))
+
+        def sap_init(self, addr, llc_):
+            orig_sap_init(self, addr, llc_)
+            g = GuardedList(self.sock_list)
+            g.sap = self
+            self.sock_list = g
+        llc_mod.ServiceAccessPoint.__init__ = sap_init
+
         # linearisation point of the modelled calls: the base class recv()/poll("recv") critical section
         base = tco_mod.TransmissionControlObject
         orig_recv, orig_poll = base.recv, base.poll
@@ -479,7 +533,7 @@ def run_scenario(progs, cause, cut, chooser, max_steps=6000):
         return dict(outcome=outcome, blocked=blocked, threads=threads, events=ctx.ev,
                     results=ctx.results, picks=list(chooser.picks), steps=sch.step,
                     fan=getattr(chooser, "fan", None), taken=getattr(chooser, "taken", None),
-                    exchanges=mac.n)
+                    exchanges=mac.n, unlocked=sorted(set(ctx.unlocked)))
     finally:
         for (cls, name), orig in saved.items():
             setattr(cls, name, orig)
@@ -497,6 +551,12 @@ DOCUMENTED_EXC = {"run": {"SystemExit"}}      # llc.run() turns IOError into Sys
 
 def judge(progs, cause, cut, res):
     """yield (key, what) for every violation of C09 in one execution"""
+    for op, tname, where in res.get("unlocked", ()):
+        yield ("registry:socket-list-%s-outside-controller-lock" % op,
+               "thread %s changed an access point's socket list (%s) without holding the controller lock, at %s: the link "
+               "loop walks that list under the lock in every cycle (RuntimeError 'deque mutated during iteration' ends the "
+               "loop without terminate(), every blocked socket call then waits forever); cause=%s cut=%s" % (
+                   tname, op, where, cause, cut))
     if res["outcome"] == "steps":
         yield ("livelock:%s" % "+".join(progs), "step budget exhausted: %s" % res["threads"])
         return
@@ -571,7 +631,8 @@ SCENARIOS_QUICK = [
     ("poll_send",), ("late_connect",), ("late_resolve",), ("late_accept",), ("late_recvfrom",),
     ("late_bound_recvfrom",), ("late_sendto",), ("early_then_late",),
     ("dlc_poll_recv",), ("dlc_poll_acks",), ("dlc_poll_send",),
-    ("dlc_frmr_peer",), ("dlc_frmr_local",), ("dlc_frmr_ui",), ("dlc_server2",), ("wks_clash",),
+    ("dlc_frmr_peer",), ("dlc_frmr_local",), ("dlc_frmr_ui",), ("dlc_server2",), ("wks_clash",), ("dlc_server_drop",),
+    ("dlc_server_drop", "ldl_recv"),
     ("resolve_a", "resolve_b"), ("resolve_a", "resolve_b", "resolve_c"),
     ("ldl_recv", "dlc_client"), ("dlc_server", "resolve"), ("ldl_poll", "dlc_client_name"),
 ]
@@ -595,7 +656,7 @@ def _work(job):
         return ("error", traceback.format_exc(), job)
     slim = []
     for rep, res in out:
-        slim.append((rep, dict(outcome=res["outcome"], blocked=res["blocked"], threads=res["threads"],
+        slim.append((rep, dict(outcome=res["outcome"], blocked=res["blocked"], threads=res["threads"], unlocked=res.get("unlocked", []),
                                results=res["results"], events=res["events"], steps=res["steps"],
                                exchanges=res["exchanges"])))
     return ("ok", slim, job)
